@@ -79,3 +79,68 @@ package kvql
 //@   assigns ctx.Hit, mapof(ctx.FieldCaches)
 //@   ensures[C10] substring: err == nil && isText(av(args, 0, kv)) && isInt(av(args, 1, kv)) && isInt(av(args, 2, kv)) ==> isstr(ret) && textOf(ret) == subText(textOf(av(args, 0, kv)), intof(av(args, 1, kv)), intof(av(args, 2, kv)))
 //@   ensures[C10] total: aok(args, 0, kv) && aok(args, 1, kv) && aok(args, 2, kv) && rtype(args[1]) == TNUMBER && rtype(args[2]) == TNUMBER ==> err == nil
+//
+// List values: what split / list / int_list / float_list / json arrays produce.
+//@ define isList(x Any) Bool = is(x, []string) || is(x, []int64) || is(x, []float64) || is(x, [][]byte) || is(x, []any)
+//@ define listLen(x Any) Int = len(as(x, []any))
+//
+// len counts the elements of any list value (and the bytes of a text).
+//@ func getListLength(data any) (n int, err error)
+//@   props C10
+//@   assigns nothing
+//@   ensures[C10] lists: isList(data) ==> err == nil && n == listLen(data)
+//@   ensures[C10] text: isText(data) ==> err == nil && n == blen(textOf(data))
+//
+//@ func funcLen(kv KVPair, args []Expression, ctx *ExecuteCtx) (ret any, err error)
+//@   props C10
+//@   requires wfArgs(args, 1)
+//@   assigns ctx.Hit, mapof(ctx.FieldCaches)
+//@   ensures[C10] count: aok(args, 0, kv) && isList(av(args, 0, kv)) ==> err == nil && is(ret, int) && intof(ret) == listLen(av(args, 0, kv))
+//
+// list(...) / int_list(...) / float_list(...) hold their arguments in order.
+//@ func funcIntList(kv KVPair, args []Expression, ctx *ExecuteCtx) (ret any, err error)
+//@   props C10
+//@   ghost k Int
+//@   requires forall i Int :: 0 <= i && i < len(args) ==> args[i] != nil
+//@   assigns ctx.Hit, mapof(ctx.FieldCaches)
+//@   ensures[C10] defined: err == nil ==> is(ret, []int64) && len(as(ret, []int64)) == len(args)
+//@   ensures[C10] inorder: err == nil && 0 <= k && k < len(args) && isInt(av(args, k, kv)) ==> as(ret, []int64)[k] == intof(av(args, k, kv))
+//@   loop 0
+//@     invariant 0 <= i && i <= len(args) && len(ret) == len(args) && fresh(ret)
+//@     invariant 0 <= k && k < i && isInt(av(args, k, kv)) ==> ret[k] == intof(av(args, k, kv))
+//
+//@ func funcFloatList(kv KVPair, args []Expression, ctx *ExecuteCtx) (ret any, err error)
+//@   props C10
+//@   ghost k Int
+//@   requires forall i Int :: 0 <= i && i < len(args) ==> args[i] != nil
+//@   assigns ctx.Hit, mapof(ctx.FieldCaches)
+//@   ensures[C10] defined: err == nil ==> is(ret, []float64) && len(as(ret, []float64)) == len(args)
+//@   ensures[C10] inorder: err == nil && 0 <= k && k < len(args) && is(av(args, k, kv), float64) ==> as(ret, []float64)[k] == fltof(av(args, k, kv))
+//@   loop 0
+//@     invariant 0 <= i && i <= len(args) && len(ret) == len(args) && fresh(ret)
+//@     invariant 0 <= k && k < i && is(av(args, k, kv), float64) ==> ret[k] == fltof(av(args, k, kv))
+//
+// Indexing with [n] returns element n (counting from 0) of any list value.
+//@ func (e *FieldAccessExpr) execListAccess(idx int, left any) (fval any, err error)
+//@   props C10
+//@   requires e != nil && e.Left != nil && idx >= 0
+//@   assigns nothing
+//@   ensures[C10] anylist: is(left, []any) && idx < listLen(left) ==> err == nil && fval == as(left, []any)[idx]
+//@   ensures[C10] strings: is(left, []string) && idx < listLen(left) ==> err == nil && fval == AStr(as(left, []string)[idx])
+//@   ensures[C10] ints: is(left, []int64) && idx < listLen(left) ==> err == nil && fval == AInt(as(left, []int64)[idx])
+//@   ensures[C10] floats: is(left, []float64) && idx < listLen(left) ==> err == nil && fval == AFlt(as(left, []float64)[idx])
+//
+// Distances refuse vectors of different lengths.
+//@ func l2Distance(left, right []float64) (d float64, err error)
+//@   props C10
+//@   assigns nothing
+//@   ensures[C10] lengths: (err == nil) == (len(left) == len(right))
+//@   loop 0
+//@     invariant 0 <= i && i <= len(left) && len(left) == len(right)
+//
+//@ func cosineDistance(left, right []float64) (d float64, err error)
+//@   props C10
+//@   assigns nothing
+//@   ensures[C10] lengths: (err == nil) == (len(left) == len(right))
+//@   loop 0
+//@     invariant 0 <= i && i <= len(left) && len(left) == len(right)
